@@ -28,6 +28,7 @@ inductive Ev where
   | sendCall (sid : Nat) | sendBad (sid : Nat) | write (c sid idx : Nat) | writeFail (c sid : Nat) | drainFail (c : Nat) | sendReturn (sid : Nat)
   | closeCall | writerClose (c : Nat) | closeReturn
   | closeCallInRecv                -- close() called from inside the receive task (from the status callback it runs)
+  | connCallInRecv                 -- connect() called from inside the receive task: returns at once, that task reconnects by itself
   | cfgWrite (c : Nat)             -- the serial client configures the adapter right after opening the port
   | cfgFail (c : Nat)              -- … and that write or drain fails: the attempt counts as failed
   | envFeed (c : Nat) | envEof (c : Nat) | envReadErr (c : Nat)
@@ -59,6 +60,7 @@ structure CS where
   failedSends : List Nat := []     -- sends whose write or drain raised
   lockHolder : Option Nat := none  -- send holding the send lock
   sendNext : List (Nat × Nat) := []     -- per send id: index of its next packet
+  sendConn : List (Nat × Nat) := []     -- per send id: the link its first packet was written to (all its packets go there)
   wire : List (Nat × Nat × Nat) := []   -- (connection, send id, packet index) in write order
   statusLog : List CSt := []
   prev : Option Ev := none
@@ -74,6 +76,12 @@ def nextIdx (l : List (Nat × Nat)) (sid : Nat) : Nat :=
 def setIdx (l : List (Nat × Nat)) (sid n : Nat) : List (Nat × Nat) := (sid, n) :: l.filter (·.1 ≠ sid)
 
 def guard (b : Bool) (s : CS) : Option CS := if b then some s else none
+
+/-- may send `sid` write to link `c`?  Its first packet goes to the current link, later packets to the link of the first -/
+def linkOk (s : CS) (sid c : Nat) : Bool :=
+  match s.sendConn.find? (·.1 = sid) with
+  | some p => p.2 = c
+  | none => s.conn = some c
 
 def stepCore (s : CS) (e : Ev) : Option CS :=
   match e with
@@ -100,7 +108,7 @@ def stepCore (s : CS) (e : Ev) : Option CS :=
       { s with implPending := false, okConn := some c, conn := some c, nextConn := s.nextConn + 1 }
   | .sleep ms =>
     if s.lastFailed && !s.slept then guard (ms = backoff s.tryNo) { s with slept := true }
-    else guard (ms = 10 || ms = 2000 || ms = 30000) s
+    else guard (ms = 10 || ms = 500 || ms = 2000 || ms = 30000) s     -- 500: the wait before reconnecting after a fault on an established link
   | .status t =>
     guard (t ≠ s.st && s.st ≠ .closed &&
            (match t with
@@ -117,21 +125,26 @@ def stepCore (s : CS) (e : Ev) : Option CS :=
   | .sendCall sid => guard (!s.activeSends.contains sid && !s.doneSends.contains sid) { s with activeSends := sid :: s.activeSends }
   | .sendBad sid => guard (s.activeSends.contains sid && s.lockHolder ≠ some sid) s
   | .write c sid idx =>
+    -- the link of a message is fixed by its first packet: the current link then, the same link for every later packet
+    -- (also when the client has reconnected in the meantime)
     guard (s.activeSends.contains sid && (s.lockHolder.isNone || s.lockHolder = some sid) &&
-           idx = nextIdx s.sendNext sid && s.conn = some c && !s.writerClosed.contains c && !s.failedSends.contains sid)
-      { s with lockHolder := some sid, sendNext := setIdx s.sendNext sid (idx + 1), wire := s.wire ++ [(c, sid, idx)] }
-  | .writeFail _ sid =>
+           idx = nextIdx s.sendNext sid && linkOk s sid c && !s.writerClosed.contains c && !s.failedSends.contains sid)
+      { s with lockHolder := some sid, sendNext := setIdx s.sendNext sid (idx + 1), wire := s.wire ++ [(c, sid, idx)],
+               sendConn := if (s.sendConn.find? (·.1 = sid)).isSome then s.sendConn else (sid, c) :: s.sendConn }
+  | .writeFail c sid =>
+    -- a failure on a link that has been replaced in the meantime is not a fault of the current link
     guard (s.activeSends.contains sid && (s.lockHolder.isNone || s.lockHolder = some sid))
-      { s with faults := s.faults + 1, lockHolder := none, failedSends := sid :: s.failedSends }
-  | .drainFail _ =>
+      { s with faults := if s.conn = some c then s.faults + 1 else s.faults, lockHolder := none, failedSends := sid :: s.failedSends }
+  | .drainFail c =>
     match s.lockHolder with
-    | some sid => some { s with faults := s.faults + 1, lockHolder := none, failedSends := sid :: s.failedSends }
+    | some sid => some { s with faults := if s.conn = some c then s.faults + 1 else s.faults, lockHolder := none, failedSends := sid :: s.failedSends }
     | none => none
   | .sendReturn sid =>
     guard (s.activeSends.contains sid)
       { s with activeSends := s.activeSends.filter (· ≠ sid), doneSends := sid :: s.doneSends,
                lockHolder := if s.lockHolder = some sid then none else s.lockHolder }
   | .closeCall => some { s with closeCalled := true }
+  | .connCallInRecv => guard s.recv.isSome s
   | .closeCallInRecv => guard s.recv.isSome { s with closeCalled := true, closeFromRecv := true }
   | .writerClose c => guard (s.st = .closed && s.conn = some c) { s with writerClosed := c :: s.writerClosed }
   | .closeReturn =>
